@@ -213,12 +213,39 @@ enum EKind { E_WRITE, E_WRITE_CMD, E_PREPARE, E_EXEC, E_READ, E_READ_BLOB, E_REA
 const char* const ekind_names[] = { "write", "write-command", "prepare-write", "execute-write", "read", "read-blob", "read-multiple", "read-by-type", "read-declaration", "write-neighbour", "prepare-neighbour" };
 struct Event { EKind kind; int a, b, c; std::string text; };
 
+// fixed capacity octet string (no heap traffic in the inner loop)
+struct Bytes
+{
+    std::uint8_t b[ 96 ]; std::size_t n = 0;
+    Bytes() {}
+    Bytes( std::initializer_list< std::uint8_t > l ) { for ( auto x : l ) push_back( x ); }
+    void push_back( std::uint8_t x ) { if ( n == sizeof b ) { fprintf( stderr, "C06 harness: Bytes overflow\n" ); exit( 2 ); } b[ n++ ] = x; }
+    std::size_t size() const { return n; }
+    bool empty() const { return n == 0; }
+    const std::uint8_t* data() const { return b; }
+    const std::uint8_t* begin() const { return b; }
+    const std::uint8_t* end() const { return b + n; }
+    std::uint8_t operator[]( std::size_t i ) const { return b[ i ]; }
+    void insert( const std::uint8_t*, const std::uint8_t* f, const std::uint8_t* l ) { for ( ; f != l; ++f ) push_back( *f ); }
+    void assign( const std::uint8_t* f, const std::uint8_t* l ) { n = 0; for ( ; f != l; ++f ) push_back( *f ); }
+    std::string hex() const { return mc::hex( b, n ); }
+};
+
 struct Exp
 {
-    std::vector< std::uint8_t > codes, bytes;
+    Bytes codes, bytes;
     bool ok() const { return codes.empty(); }
     bool has( std::uint8_t c ) const { return std::find( codes.begin(), codes.end(), c ) != codes.end(); }
     std::string want() const { std::string s; for ( auto c : codes ) s += ( s.empty() ? "" : "-or-" ) + mc::fmt( "%02x", c ); return s; }
+    // "refuse-<codes>", memoised per set of codes
+    const std::string& refuse() const
+    {
+        static std::map< unsigned, std::string > memo;
+        unsigned key = 0; for ( auto c : codes ) key = key * 32 + c;
+        auto it = memo.find( key );
+        if ( it == memo.end() ) it = memo.emplace( key, "refuse-" + want() ).first;
+        return it->second;
+    }
     std::string first() const { return codes.empty() ? std::string( "none" ) : mc::fmt( "%02x", codes[ 0 ] ); }   // for signatures: the reason that comes first (permission, not long, length of a typed value, offset, length)
 };
 
@@ -279,6 +306,7 @@ struct World
         for ( std::size_t i = 1; i != 66; ++i ) if ( !in_bufs[ i ] ) in_bufs[ i ] = new std::uint8_t[ i ];
     }
     std::string   crash;
+    std::set< std::uint64_t > cls_seen; bool cls_new = false;     // classes already reported (not part of the state)
 
     void init()
     {
@@ -331,7 +359,7 @@ struct World
     std::string describe( int ev ) const { return events[ std::size_t( ev ) ].text; }
 
     // ---- driving the real server
-    void request( const std::vector< std::uint8_t >& pdu )
+    void request( const Bytes& pdu )
     {
         if ( pdu.size() > MTU ) { fprintf( stderr, "C06 harness: PDU larger than the MTU\n" ); exit( 2 ); }
         std::uint8_t* in = in_bufs[ pdu.size() ];                  // exact size: over-reads hit a red zone
@@ -381,7 +409,7 @@ struct World
         {
             if ( out_size >= 1 && out[ 0 ] == rsp && out_size - 1 == e.bytes.size() && ( e.bytes.empty() || memcmp( out + 1, e.bytes.data(), e.bytes.size() ) == 0 ) ) return;
             const char* k = is_error() ? "unexpected-error" : ( out_size >= 1 && out[ 0 ] == rsp && out_size - 1 != e.bytes.size() ) ? "wrong-length" : "wrong-bytes";
-            c.fail( mc::fmt( "read:%s:%s:%s", k, m.cls, path ), mc::fmt( "%s: %s answered %s, reference %02x%s", m.name.c_str(), what.c_str(), mc::hex( out, out_size ).c_str(), rsp, mc::hex( e.bytes ).c_str() ) );
+            c.fail( mc::fmt( "read:%s:%s:%s", k, m.cls, path ), mc::fmt( "%s: %s answered %s, reference %02x%s", m.name.c_str(), what.c_str(), mc::hex( out, out_size ).c_str(), rsp, e.bytes.hex().c_str() ) );
             return;
         }
         if ( is_error() && out[ 1 ] == req && ( out[ 2 ] | ( out[ 3 ] << 8 ) ) == handle && e.has( out[ 4 ] ) ) return;
@@ -434,7 +462,7 @@ struct World
                          m.name.c_str(), path, d, m.off, m.off + m.n - 1, __start_c06_arena[ d ], ref_arena[ d ] ) );
     }
 
-    static std::vector< std::uint8_t > h16( std::uint8_t op, std::uint16_t h ) { return { op, std::uint8_t( h & 0xff ), std::uint8_t( h >> 8 ) }; }
+    static Bytes h16( std::uint8_t op, std::uint16_t h ) { return { op, std::uint8_t( h & 0xff ), std::uint8_t( h >> 8 ) }; }
 
     bool apply( int evn, mc::Ctx& c )
     {
@@ -450,7 +478,7 @@ struct World
             request( h16( 0x0A, vh ) );
             const Exp x = exp_read( 0, MTU - 1 );
             check_read_rsp( c, "read", 0x0A, 0x0B, vh, x, e.text );
-            expect_cls = x.ok() ? "ok" : "refuse-" + x.want();
+            expect_cls = x.ok() ? "ok" : x.refuse();
             break;
         }
         case E_READ_BLOB:
@@ -459,7 +487,7 @@ struct World
             request( pdu );
             const Exp x = exp_read( unsigned( e.a ), MTU - 1 );
             check_read_rsp( c, "read", 0x0C, 0x0D, vh, x, e.text );
-            expect_cls = x.ok() ? ( x.bytes.size() == MTU - 1 ? "ok-truncated" : x.bytes.empty() ? "ok-empty" : "ok" ) : "refuse-" + x.want();
+            expect_cls = x.ok() ? ( x.bytes.size() == MTU - 1 ? "ok-truncated" : x.bytes.empty() ? "ok-empty" : "ok" ) : x.refuse();
             break;
         }
         case E_READ_MULT:
@@ -486,7 +514,7 @@ struct World
                 }
             }
             check_read_rsp( c, "read-multiple", 0x0E, 0x0F, failing, all, e.text );
-            expect_cls = all.ok() ? ( all.bytes.size() == MTU - 1 ? "ok-truncated" : "ok" ) : "refuse-" + all.want();
+            expect_cls = all.ok() ? ( all.bytes.size() == MTU - 1 ? "ok-truncated" : "ok" ) : all.refuse();
             break;
         }
         case E_RBT:
@@ -520,7 +548,7 @@ struct World
             request( pdu );
             const Exp x = exp_write( 0, unsigned( e.a ) );
             if ( check_write_rsp( c, path, 0x12, vh, x, cmd, e.text ) ) ref_store( 0, data, unsigned( e.a ) );
-            expect_cls = x.ok() ? ( e.a < m.n ? "ok-partial" : "ok" ) : "refuse-" + x.want();
+            expect_cls = x.ok() ? ( e.a < m.n ? "ok-partial" : "ok" ) : x.refuse();
             break;
         }
         case E_WRITE_NBR:
@@ -553,7 +581,7 @@ struct World
             else if ( is_error() && out[ 1 ] == 0x16 && out[ 4 ] == 0x09 ) {}              // queue full: allowed, nothing queued
             else if ( !nbr && std::string( m.cls ) == "handler" && is_error() && out[ 1 ] == 0x16 ) {}   // the write handler is asked with an empty value and may refuse
             else c.fail( mc::fmt( "write:unexpected-error:%s:prepare-write", m.cls ), mc::fmt( "%s: %s answered %s, reference accepts", m.name.c_str(), e.text.c_str(), mc::hex( out, out_size ).c_str() ) );
-            expect_cls = x.ok() ? "writable" : "refuse-" + x.want();
+            expect_cls = x.ok() ? "writable" : x.refuse();
             break;
         }
         case E_EXEC:
@@ -577,7 +605,7 @@ struct World
                         if ( x.ok() ) memcpy( ref_arena + arena_off( a_nbr ) + q.off, qdata, q.len ); else failing = q.handle;
                     }
                 }
-            expect_cls = mc::fmt( "%d-queued-%s", int( ref.qn ), x.ok() ? "ok" : ( "refuse-" + x.want() ).c_str() );
+            expect_cls = mc::fmt( "%d-queued-%s", int( ref.qn ), x.ok() ? "ok" : ( x.refuse() ).c_str() );
             ref.qn = 0; memset( ref.q, 0, sizeof ref.q );
             if ( x.ok() )
             {
@@ -599,8 +627,16 @@ struct World
             c.fail( mc::fmt( "memory:%s:%s:%s", crash.c_str(), m.cls, path ), mc::fmt( "%s: %s", m.name.c_str(), e.text.c_str() ) );
         }
         check_arena( c, path );
-        c.obs = mc::hex( out, out_size );
-        c.cls( std::string( m.cls ) + "/" + path + "/" + expect_cls + "/" + rsp_class() );
+        c.obs = mc::hex( out, std::min< std::size_t >( out_size, 7 ) );     // short (no allocation); enough for the determinism check
+        {
+            std::uint64_t key = 1469598103934665603ull;
+            auto mix = [&]( const char* p ) { for ( ; *p; ++p ) key = ( key ^ std::uint8_t( *p ) ) * 1099511628211ull; key *= 31; };
+            mix( m.cls ); mix( path ); mix( expect_cls.c_str() );
+            key = ( key ^ ( !crash.empty() ? 1u : out_size == 0 ? 2u : is_error() ? 0x100u + out[ 4 ] : 0x200u + out[ 0 ] ) ) * 1099511628211ull;
+            if ( cls_seen.insert( key ).second ) cls_new = true;
+            if ( cls_new || !c.fails.empty() ) c.cls( std::string( m.cls ) + "/" + path + "/" + expect_cls + "/" + rsp_class() );
+            cls_new = false;
+        }
         return true;
     }
 
@@ -716,18 +752,28 @@ void run_config_mtu( const Ops& ops, int K, int P, const std::string& name, cons
     if ( total.violations.size() != before ) total.notes[ "reference adjusted to the observed permission after a static finding" ] += name + "; ";
 
     // histories
-    // sizes <= 4: the full alphabet (every length / offset 0..n+1).  Larger values: the boundary alphabet
-    // {0,1,2,n-1,n,n+1} to the tier's depth and (thorough) the full alphabet to depth 3 (2 if it has more than 220 events)
+    // Depth policy.  Values of at most 4 octets use the full alphabet (every length / offset 0..n+1), larger ones the
+    // boundary alphabet {0,1,2,n-1,n,n+1} and additionally (thorough) the full alphabet to a smaller depth.
+    //   quick   : depth 3 for both MTUs
+    //   thorough: depth 4 at MTU 23 for plain / no_read_access, depth 3 for the options that only change the property
+    //             byte (write_without_response, only_write_without_response) and for MTU 65 (for values <= 20 octets
+    //             MTU 65 only adds the lengths 21.. and longer reads); full alphabet for n > 4: depth 3 at MTU 65
+    //             (2 if it has more than 220 events or the option only changes the property byte), depth 2 at MTU 23
     struct Pass { bool full; int depth; };
     std::vector< Pass > passes;
-    const int n = w.m.n;
-    if ( n <= 4 ) passes.push_back( Pass{ true, a.thorough() ? 4 : 3 } );
-    else if ( !a.thorough() ) passes.push_back( Pass{ false, 3 } );
+    const int  n = w.m.n;
+    const bool main_perm = P == P_NONE || P == P_NR || P == P_NR_NOTIFY;
+    if ( !a.thorough() ) passes.push_back( Pass{ n <= 4, 3 } );
     else
     {
-        w.build_events( true );
-        passes.push_back( Pass{ true, w.num_events() > 220 ? 2 : 3 } );
-        passes.push_back( Pass{ false, 4 } );
+        const int base = main_perm && MTU == 23 ? 4 : 3;
+        if ( n <= 4 ) passes.push_back( Pass{ true, base } );
+        else
+        {
+            w.build_events( true );
+            passes.push_back( Pass{ true, MTU == 23 || !main_perm || w.num_events() > 220 ? 2 : 3 } );
+            passes.push_back( Pass{ false, base } );
+        }
     }
     for ( const Pass& p : passes )
     {
@@ -810,8 +856,9 @@ int main( int argc, char** argv )
         if ( configs_matched == 0 ) printf( "configuration %s is not part of this build (quick tier builds a subset: replay with --tier thorough)\n", only.c_str() );
         return rc;
     }
-    total.notes[ "bound" ] = mc::fmt( "group %d, MTU 23 and 65: per configuration BFS depth %d (value sizes <= 4: full alphabet; larger: %s)", C06_GROUP, a.thorough() ? 4 : 3,
-                                      a.thorough() ? "boundary alphabet {0,1,2,n-1,n,n+1} depth 4 and full alphabet depth 3 (depth 2 above 220 events)" : "boundary alphabet {0,1,2,n-1,n,n+1}" );
+    total.notes[ "bound" ] = a.thorough()
+        ? mc::fmt( "group %d, MTU 23 and 65: depth 4 at MTU 23 for plain/no_read_access, depth 3 otherwise (values <= 4 octets: full alphabet; larger: boundary alphabet {0,1,2,n-1,n,n+1}, plus the full alphabet to depth 3 at MTU 65 (2 above 220 events) and depth 2 at MTU 23); see the 'states ...' counters for every pass", C06_GROUP )
+        : mc::fmt( "group %d, MTU 23 and 65: depth 3 (values <= 4 octets: full alphabet; larger: boundary alphabet {0,1,2,n-1,n,n+1})", C06_GROUP );
     total.write( a );
     return 0;
 }
